@@ -2,7 +2,7 @@
    Print Assumptions. *)
 From Coq Require Import ZArith NArith List Bool Sorted.
 From Centro Require Import Base.GraphC15 Model.LabelGraph Spec.LabelGraph
-  Proofs.ColorC15 Proofs.DfsC15 Proofs.AccC15 Proofs.EulerC15 Proofs.RelabelC15 Proofs.NeighborsC15 Proofs.EulerQuadC15 Proofs.EulerStepC15 Proofs.AccCertC15 Proofs.SpecC15 Proofs.EulerTopoC15 Spec.EulerMovesC15 Spec.EulerReduceC15 Proofs.EulerSearchC15 Proofs.EulerHoleFreeC15 Proofs.EulerBridgeC15.
+  Proofs.ColorC15 Proofs.DfsC15 Proofs.AccC15 Proofs.EulerC15 Proofs.RelabelC15 Proofs.NeighborsC15 Proofs.EulerQuadC15 Proofs.EulerStepC15 Proofs.AccCertC15 Proofs.SpecC15 Proofs.EulerTopoC15 Spec.EulerMovesC15 Spec.EulerReduceC15 Proofs.EulerSearchC15 Proofs.EulerHoleFreeC15 Proofs.EulerBridgeC15 Proofs.EulerHolesC15.
 Import ListNotations.
 
 (* ---- all_connected_components / _all_connected_components (Full, including termination) ----
@@ -323,3 +323,26 @@ Theorem C15_euler_is_components_minus_holes_reducible : forall l : Z, l <> 0 -> 
   euler4 im l = 4 * euler_spec im l /\ euler_spec im l = k.
 Proof. exact euler_is_components_minus_holes_reducible. Qed.
 Print Assumptions C15_euler_is_components_minus_holes_reducible.
+
+(* ================================================================ round 5: what is covered, precisely.
+   Full (every image size):  (a) hole-free labels (C15_euler_holefree);  (b) labels all of whose holes are
+   single pixels, any number of objects and holes (below);  (c) every image reducible by the four moves
+   (C15_euler_is_components_minus_holes_reducible), membership certified per case by the verified search
+   (thorough tier: 46 205 of 46 205 (image, label) pairs).  Finite: all images up to 3x3 over {0,1,2}, all
+   binary images up to 3x4 / 2x5 (in the build) and 4x4 (Proofs/EulerCover44C15.v, on demand).
+   NOT proved: reducibility of every image with a hole of two or more pixels.  Needed is the DUAL end-pixel
+   lemma - every finite 4-connected background component H, |H| >= 2, without an enclosed object has a pixel
+   whose filling is simple (an end pixel of H for (4,8)-adjacency) - plus an induction over the nesting of
+   objects in holes (a hole that encloses an object has no fillable pixel until that object is deleted).
+   C05's end_pixel_fin is the (8,4) statement and cannot be applied to the complement as is; the extremal
+   pixel of a hole is not always fillable (4x4 image of ones with zeros at (1,2), (2,1), (2,2): filling the
+   raster-last hole pixel (2,2) splits the hole).  The unrestricted statement therefore stays _partial. *)
+Theorem C15_singleton_holes_reducible : forall l : Z, l <> 0 -> forall im, rect im ->
+  singleton_holes (X_of im l) -> exists k, Reduces2 l im k.
+Proof. exact singleton_holes_reducible. Qed.
+Print Assumptions C15_singleton_holes_reducible.
+
+Theorem C15_euler_singleton_holes : forall (l : Z) (im : image), l <> 0 -> rect im -> singleton_holes (X_of im l) ->
+  euler4 im l = 4 * euler_spec im l.
+Proof. exact euler_singleton_holes. Qed.
+Print Assumptions C15_euler_singleton_holes.
